@@ -220,8 +220,11 @@ def r5(ctx):
     sb, _, tg, other = sw[0]
     true_side = other if 0 in tg else tg.get(1)
     false_side = tg.get(0)
-    in_true = [s for s in ih if fa_dom(ff, true_side, s)]
-    in_false = [s for s in ih if fa_dom(ff, false_side, s)]
+    # sites executed on the way through each side: behind that side's edge, or before the test
+    # (a first header write shared by both sides may be hoisted above the `if`)
+    shared = [s for s in ih if ff.dominates(s, sb)]
+    in_true = shared + [s for s in ih if fa_dom(ff, true_side, s)]
+    in_false = shared + [s for s in ih if fa_dom(ff, false_side, s)]
     ctx.check(P, rule, "Oplog::flush: two header writes when clearing traces", len(in_true) == 2 and len(in_false) == 1,
               "clear_traces branch has two insert_header sites, the normal branch one",
               "insert_header sites: clear_traces branch %d (expected 2), normal branch %d (expected 1)" % (len(in_true), len(in_false)),
